@@ -201,10 +201,45 @@ def shard_main(argv):
         # ---- stateful part
         if hasattr(mod, 'run_stateful') and not out['violations']:
             mod.run_stateful(tier, seed, shard, n_shards, out)
+        # ---- coverage-guided part (atheris / libFuzzer driving the same strategy and oracle)
+        ath = getattr(mod, 'ATHERIS', None)
+        if ath and tier in ath and shard < ath[tier].get('shards', 4) and not out['violations']:
+            _run_atheris(mod, pid, tier, seed, shard, ath[tier], out, outfile)
     except Exception:
         out['harness_error'] = traceback.format_exc()
     out['wall_s'] = time.time() - t_start
     flush()
+
+
+def _run_atheris(mod, pid, tier, seed, shard, conf, out, outfile):
+    ofile = outfile + '.atheris.json'
+    env = dict(os.environ)
+    if conf.get('include'):
+        env['VERIF_ATHERIS_INCLUDE'] = json.dumps(conf['include'])
+    cmd = [sys.executable, '-m', 'pbt.fuzz', pid, tier, str(derive_seed(seed, shard) % (2**31 - 2) + 1), ofile,
+           str(conf.get('seconds', 60)), str(conf.get('runs', 20000))]
+    try:
+        subprocess.run(cmd, env=env, cwd=str(VERIF_DIR), stdout=subprocess.DEVNULL, stderr=subprocess.DEVNULL,
+                       timeout=conf.get('seconds', 60) * 3 + 120)
+    except subprocess.TimeoutExpired:
+        out['inconclusive'] += 1
+    if not os.path.exists(ofile):
+        out['classes']['atheris_no_result'] = out['classes'].get('atheris_no_result', 0) + 1
+        return
+    r = json.load(open(ofile))
+    out['info']['atheris_execs'] = out['info'].get('atheris_execs', 0) + r.get('execs', 0)
+    out['info']['atheris_nontrivial'] = out['info'].get('atheris_nontrivial', 0) + r.get('nontrivial', 0)
+    out['evaluations'] += r.get('execs', 0)
+    for c, n in r.get('classes', {}).items():
+        out['classes']['atheris:' + c] = out['classes'].get('atheris:' + c, 0) + n
+    v = r.get('violation')
+    if v:
+        res = eval_case(mod, v['spec'])     # re-check in a plain interpreter before reporting
+        if res[0] == 'violation':
+            out['violations'].append({'spec': v['spec'], 'clause': res[1], 'detail': res[2]})
+        else:
+            out['classes']['atheris_unreproduced'] = out['classes'].get('atheris_unreproduced', 0) + 1
+    shutil.rmtree(ofile + '.corpus', ignore_errors=True)
 
 
 def derive_seed(seed, shard):
